@@ -13,7 +13,7 @@ use std::task::{Context, Poll, Wake, Waker};
 use std::time::Duration;
 
 use many_cpus::SystemHardware;
-use many_cpus::fake::HardwareBuilder;
+use many_cpus::fake::{HardwareBuilder, ProcessorBuilder};
 use vcommon::serde_json::{Value, json};
 use vcommon::{Check, child_job, child_result};
 use vicinal::{Pool, Scheduler};
@@ -44,9 +44,15 @@ struct Program {
     concurrent_drop: bool,
     /// spawners keep their `Scheduler` clone alive until they have awaited all handles
     keep_scheduler: bool,
+    /// processor ids are sparse (processor i has id 3*i + 2) instead of 0, 1, ..: an id is then
+    /// not an index below the processor count (program names start with `P` instead of `p`)
+    sparse_ids: bool,
 }
 
 impl Program {
+    fn processor_id(&self, index: usize) -> usize {
+        if self.sparse_ids { 3 * index + 2 } else { index }
+    }
     fn name(&self) -> String {
         let sp: Vec<String> = self
             .spawners
@@ -60,7 +66,8 @@ impl Program {
             })
             .collect();
         format!(
-            "p{}w{}:{}:{}{}",
+            "{}{}w{}:{}:{}{}",
+            if self.sparse_ids { 'P' } else { 'p' },
             self.processors,
             self.workers_per_processor,
             sp.join(","),
@@ -88,6 +95,7 @@ impl Program {
             spawners,
             concurrent_drop: parts[2].starts_with("drop"),
             keep_scheduler: parts[2].ends_with("+keep"),
+            sparse_ids: pw.starts_with('P'),
         }
     }
     fn class(&self) -> &'static str {
@@ -237,13 +245,21 @@ fn execution(prog: &Program) -> String {
         RUNS[i].store(0, SeqCst);
         RAN_ON[i].store(-1, SeqCst);
     }
-    let hw = SystemHardware::fake(HardwareBuilder::from_counts(NonZero::new(prog.processors).unwrap(), NonZero::new(1).unwrap()));
+    let hw = if prog.sparse_ids {
+        let mut b = HardwareBuilder::new();
+        for i in 0..prog.processors {
+            b = b.processor(ProcessorBuilder::new().id(prog.processor_id(i) as u32).memory_region(0));
+        }
+        SystemHardware::fake(b)
+    } else {
+        SystemHardware::fake(HardwareBuilder::from_counts(NonZero::new(prog.processors).unwrap(), NonZero::new(1).unwrap()))
+    };
     let pool = Pool::builder().hardware(hw.clone()).workers_per_processor(NonZero::new(prog.workers_per_processor).unwrap()).name("v").build();
     let mut joins = Vec::new();
     let mut first = 0;
     let mut expect_proc: Vec<(usize, usize, SpawnKind)> = Vec::new();
     for (si, (processor, ops)) in prog.spawners.iter().enumerate() {
-        let (hw2, sched, processor, ops2, f, keep) = (hw.clone(), pool.scheduler(), *processor, ops.clone(), first, prog.keep_scheduler);
+        let (hw2, sched, processor, ops2, f, keep) = (hw.clone(), pool.scheduler(), prog.processor_id(*processor), ops.clone(), first, prog.keep_scheduler);
         for (i, k) in ops.iter().enumerate() {
             if *k == SpawnKind::AwaitSoFar {
                 continue;
@@ -382,7 +398,7 @@ fn programs(thorough: bool) -> Vec<(Program, String)> {
     let many = "d1".to_string(); // programs with >= 5 threads: deviation bound (d2 did not fit the budget)
     if !thorough {
         // Quick tier: an explicit small family (about 6k executions in total).
-        let mk = |processors, w, spawners: Vec<(usize, Vec<SpawnKind>)>, concurrent_drop, keep_scheduler| Program { processors, workers_per_processor: w, spawners, concurrent_drop, keep_scheduler };
+        let mk = |processors, w, spawners: Vec<(usize, Vec<SpawnKind>)>, concurrent_drop, keep_scheduler| Program { processors, workers_per_processor: w, spawners, concurrent_drop, keep_scheduler, sparse_ids: false };
         v.push((mk(1, 1, vec![(0, vec![Regular])], false, false), "1".into()));
         v.push((mk(1, 1, vec![(0, vec![Regular])], true, false), "1".into()));
         v.push((mk(1, 1, vec![(0, vec![Regular])], true, true), "1".into()));
@@ -396,6 +412,9 @@ fn programs(thorough: bool) -> Vec<(Program, String)> {
         // a long task that depends on later work must not swallow the wake-up meant for the idle
         // worker: gated A, B, await B, C (A's gate), await C, await A
         v.push((mk(1, 2, vec![(0, vec![Gated, Regular, AwaitSoFar, Regular])], false, false), "d1".into()));
+        // sparse processor ids: an id is not an index below the processor count
+        v.push((Program { sparse_ids: true, ..mk(1, 1, vec![(0, vec![Regular])], false, false) }, "d1".into()));
+        v.push((Program { sparse_ids: true, ..mk(2, 1, vec![(0, vec![Urgent]), (1, vec![Forget, Regular])], false, false) }, "d0".into()));
         // Breadth: every program of the thorough family once, on its default schedule ("d0" = no
         // deviation of any kind), so that each combination of operations is at least executed
         // and judged in the quick tier (defects that do not depend on the schedule).
@@ -407,21 +426,25 @@ fn programs(thorough: bool) -> Vec<(Program, String)> {
         }
         return v;
     }
+    // sparse processor ids
+    for (procs, spawners) in [(1, vec![(0, vec![Regular])]), (2, vec![(0, vec![Urgent]), (1, vec![Forget, Regular])]), (2, vec![(1, vec![UrgentNested])])] {
+        v.push((Program { processors: procs, workers_per_processor: 1, spawners, concurrent_drop: false, keep_scheduler: false, sparse_ids: true }, "d1".to_string()));
+    }
     // long-running tasks that depend on later work (two workers; live pool)
     for ops in [vec![Gated, Regular, AwaitSoFar, Regular], vec![Gated, Urgent, AwaitSoFar, Urgent], vec![Gated, Regular], vec![Regular, AwaitSoFar, Gated, Regular, AwaitSoFar, Urgent]] {
-        v.push((Program { processors: 1, workers_per_processor: 2, spawners: vec![(0, ops)], concurrent_drop: false, keep_scheduler: false }, "d2".to_string()));
+        v.push((Program { processors: 1, workers_per_processor: 2, spawners: vec![(0, ops)], concurrent_drop: false, keep_scheduler: false, sparse_ids: false }, "d2".to_string()));
     }
     for (concurrent_drop, keep_scheduler) in [(false, false), (true, false), (true, true)] {
         // one spawner, one processor, one worker: the core programs get the deepest bound
-        v.push((Program { processors: 1, workers_per_processor: 1, spawners: vec![(0, vec![Regular])], concurrent_drop, keep_scheduler }, deep.clone()));
+        v.push((Program { processors: 1, workers_per_processor: 1, spawners: vec![(0, vec![Regular])], concurrent_drop, keep_scheduler, sparse_ids: false }, deep.clone()));
         let more: Vec<Vec<SpawnKind>> = if thorough { seqs1.iter().skip(1).chain(seqs2.iter()).cloned().collect() } else { vec![vec![Forget], vec![Urgent, Regular]] };
         for ops in &more {
-            v.push((Program { processors: 1, workers_per_processor: 1, spawners: vec![(0, ops.clone())], concurrent_drop, keep_scheduler }, wide.clone()));
+            v.push((Program { processors: 1, workers_per_processor: 1, spawners: vec![(0, ops.clone())], concurrent_drop, keep_scheduler, sparse_ids: false }, wide.clone()));
         }
         // two workers on the processor
         let w2: Vec<Vec<SpawnKind>> = if thorough { seqs1.iter().chain(seqs2.iter()).cloned().collect() } else { vec![vec![Regular]] };
         for ops in &w2 {
-            v.push((Program { processors: 1, workers_per_processor: 2, spawners: vec![(0, ops.clone())], concurrent_drop, keep_scheduler }, "d2".to_string()));
+            v.push((Program { processors: 1, workers_per_processor: 2, spawners: vec![(0, ops.clone())], concurrent_drop, keep_scheduler, sparse_ids: false }, "d2".to_string()));
         }
         // two spawners, same processor / different processors
         let pairs: Vec<(Vec<SpawnKind>, Vec<SpawnKind>)> = if thorough {
@@ -434,7 +457,7 @@ fn programs(thorough: bool) -> Vec<(Program, String)> {
                 continue;
             }
             for (a, b) in &pairs {
-                v.push((Program { processors: procs, workers_per_processor: 1, spawners: vec![(pa, a.clone()), (pb, b.clone())], concurrent_drop, keep_scheduler }, many.clone()));
+                v.push((Program { processors: procs, workers_per_processor: 1, spawners: vec![(pa, a.clone()), (pb, b.clone())], concurrent_drop, keep_scheduler, sparse_ids: false }, many.clone()));
             }
         }
     }
